@@ -1,0 +1,46 @@
+//! Verification hooks (cargo feature `verif-hooks`, off by default).
+//!
+//! Two kinds of named points that an external test harness can observe:
+//! an async `pause` (a place where a task may be parked) and a synchronous
+//! `sync_point` (a place where a thread may be delayed). Both do nothing
+//! unless a callback has been installed, and this module is compiled only
+//! when the feature is enabled.
+
+use std::future::Future;
+use std::pin::Pin;
+use std::sync::{Arc, RwLock};
+
+/// Callback invoked at an async pause point.
+pub type PauseFn =
+    Arc<dyn Fn(&'static str) -> Pin<Box<dyn Future<Output = ()> + Send>> + Send + Sync>;
+/// Callback invoked at a synchronous sync point.
+pub type SyncFn = Arc<dyn Fn(&'static str) + Send + Sync>;
+
+static PAUSE: RwLock<Option<PauseFn>> = RwLock::new(None);
+static SYNC: RwLock<Option<SyncFn>> = RwLock::new(None);
+
+/// Install (or clear) the pause callback.
+pub fn set_pause(f: Option<PauseFn>) {
+    *PAUSE.write().unwrap_or_else(|e| e.into_inner()) = f;
+}
+
+/// Install (or clear) the sync-point callback.
+pub fn set_sync(f: Option<SyncFn>) {
+    *SYNC.write().unwrap_or_else(|e| e.into_inner()) = f;
+}
+
+/// Async pause point; returns immediately when no callback is installed.
+pub async fn pause(name: &'static str) {
+    let f = PAUSE.read().unwrap_or_else(|e| e.into_inner()).clone();
+    if let Some(f) = f {
+        f(name).await;
+    }
+}
+
+/// Synchronous sync point; returns immediately when no callback is installed.
+pub fn sync_point(name: &'static str) {
+    let f = SYNC.read().unwrap_or_else(|e| e.into_inner()).clone();
+    if let Some(f) = f {
+        f(name);
+    }
+}
